@@ -197,6 +197,27 @@ func (e *Exec) patternIntrinsicHarness(fn *ssa.Function, name string) Intrinsic 
 			}
 			return ret1(st, nil)
 		}
+	case "vOverride":
+		// vOverride(name, fn): from now on calls to the function called name run fn instead (contract stub).
+		return func(e *Exec, st *State, fn *ssa.Function, args []Value, depth int) []Outcome {
+			name := e.nameArg(args[0])
+			target := args[1]
+			if iv, ok := target.(Iface); ok {
+				target = iv.V
+			}
+			if e.Overrides == nil {
+				e.Overrides = map[string]Intrinsic{}
+			}
+			if target == nil {
+				delete(e.Overrides, name)
+				return ret1(st, nil)
+			}
+			e.ContractsUsed = append(e.ContractsUsed, name)
+			e.Overrides[name] = func(e *Exec, st *State, fn *ssa.Function, a []Value, depth int) []Outcome {
+				return e.callValue(st, target, a, nil, depth+1, nil)
+			}
+			return ret1(st, nil)
+		}
 	case "vTier":
 		return func(e *Exec, st *State, fn *ssa.Function, args []Value, depth int) []Outcome {
 			if e.Tier == "thorough" {
